@@ -1,5 +1,6 @@
 import WindVerif.Proofs.Buffers
 import WindVerif.Proofs.RingSeq
+import WindVerif.Proofs.BuffersFail
 /-!
 # C15 — Reorder buffers emit each item once in serial order; ring buffer keeps last N
 
@@ -138,5 +139,136 @@ example : let r := (runRing (Ring.new 3) [] [some 1, some 2, some 3, some 2]).1
     (ringIndex r 2 (some 1) (some (-1))).toOption = none ∧ (ringIndex r 2 (some (-9)) (some 9)).toOption = some 0 ∧
     pyListIndex [2, 3, 2] 2 (some (-2)) none = some 2 ∧ pyListIndex [2, 3, 2] 2 (some 1) (some (-1)) = none := by
   dsimp only; decide
+
+/-! ### `PrintBuffer` with an output stream that can fail: nothing is lost
+
+Model in `Model/BuffersFail.lean`: the stream is an oracle `ok : Nat → Bool` (does the `n`-th attempted write of a value
+succeed?), the state `PBufF` is the old `PBuf` plus the number of attempts; `printF` / `flushF` follow the Python statement
+order (write FIRST, then delete and count) and return the state as the raised exception leaves it.  Histories: `EvF.print sn` /
+`EvF.flush`, run by `runG` from `GSt.init`; the value of serial `i` is `f i`.  The ghost list `taken` holds the serials whose
+value the buffer has taken over (written or stored), `refused` those of the `print` calls that raised at the write of their own
+value — such a call has changed nothing (`printbuffer_refused_unchanged`), the value is still with the caller. -/
+
+/-- a `print` call for the awaited serial whose first write fails raises and has changed nothing but the attempt counter (the
+caller still has the value and may call again) -/
+theorem printbuffer_refused_unchanged {ok : Nat → Bool} {s : PBufF} {sn : Nat} (x : Nat) (h : refuses ok s sn = true) :
+    s.printF ok sn x = ({ s with att := s.att + 1 }, .error ()) := by
+  first | exact WindVerif.Buffers.printF_refused .. | (apply WindVerif.Buffers.printF_refused <;> assumption)
+
+/-- the fuel `printF` gives to its `while` loop suffices: when the loop ends without an exception its condition is false -/
+theorem printbuffer_chase_fuel {ok : Nat → Bool} (fuel : Nat) (s : PBufF) (hf : s.buffer.length < fuel)
+    (hr : (PBufF.chaseF ok fuel s).2 = .ok ()) :
+    sGet (PBufF.chaseF ok fuel s).1.buffer (PBufF.chaseF ok fuel s).1.wf = none := by
+  first | exact WindVerif.Buffers.chaseF_fuel .. | (apply WindVerif.Buffers.chaseF_fuel <;> assumption)
+
+/-- Nothing is lost: every serial number fed at most once, ANY failure oracle, `flush` calls anywhere.  Every serial of a `print`
+call is in exactly one of three places, exactly once: among the written values (`outS`: the serials in output order), in the
+buffer (with its value), or refused (that call raised at its first write and changed nothing). -/
+theorem nothing_lost (ok : Nat → Bool) (f : Nat → Nat) (evs : List EvF) (hnd : (printed evs).Nodup) :
+    let g := runG ok f GSt.init evs
+    ∃ outS : List Nat,
+      g.st.out = outS.map f ∧
+      (outS ++ g.st.buffer.map (·.1) ++ g.refused).Perm (printed evs) ∧
+      (∀ i x, (i, x) ∈ g.st.buffer → x = f i) ∧
+      (∀ i, i ∈ printed evs →
+        outS.count i + (g.st.buffer.map (·.1)).count i + g.refused.count i = 1) ∧
+      (∀ i, i ∈ g.refused → i ∉ g.taken) := by
+  first | exact WindVerif.Buffers.nothing_lost .. | (apply WindVerif.Buffers.nothing_lost <;> assumption)
+
+/-- The same with the weakest form of "unique serials": no `print` call for a serial whose value has already been taken, so
+calling again after a refusal is allowed (`Fresh`; unique serials imply it: `fresh_of_unique`).  The serials taken are
+exactly the written ones and the stored ones, each once; every `print` call has either taken its value or refused it. -/
+theorem nothing_lost_retry (ok : Nat → Bool) (f : Nat → Nat) (evs : List EvF) (hf : Fresh ok f GSt.init evs) :
+    let g := runG ok f GSt.init evs
+    ∃ outS : List Nat,
+      g.st.out = outS.map f ∧
+      g.taken.Nodup ∧ g.taken.Perm (outS ++ g.st.buffer.map (·.1)) ∧
+      (∀ i x, (i, x) ∈ g.st.buffer → x = f i) ∧
+      (g.taken ++ g.refused).Perm (printed evs) := by
+  first | exact WindVerif.Buffers.nothing_lost_retry .. | (apply WindVerif.Buffers.nothing_lost_retry <;> assumption)
+
+theorem fresh_of_unique (ok : Nat → Bool) (f : Nat → Nat) (evs : List EvF) (hnd : (printed evs).Nodup) :
+    Fresh ok f GSt.init evs := by
+  first | exact WindVerif.Buffers.fresh_of_nodup .. | (apply WindVerif.Buffers.fresh_of_nodup <;> assumption)
+
+/-- While no `flush` has been called, the output is the values of serials `0 … waiting_for-1` in order, failures included;
+everything below `waiting_for` has been taken, the buffer holds exactly the taken serials from `waiting_for` on (after a failed
+write inside `print` this includes `waiting_for` itself: that value is held until `flush`). -/
+theorem output_in_order_until_flush (ok : Nat → Bool) (f : Nat → Nat) (evs : List EvF)
+    (hf : Fresh ok f GSt.init evs) (hn : noFlush evs) :
+    let g := runG ok f GSt.init evs
+    g.st.out = (List.range g.st.wf).map f ∧
+    (∀ j, j < g.st.wf → j ∈ g.taken) ∧
+    (∀ i, (∃ x, (i, x) ∈ g.st.buffer) ↔ (i ∈ g.taken ∧ g.st.wf ≤ i)) ∧
+    (∀ i x, (i, x) ∈ g.st.buffer → x = f i) ∧
+    g.st.len = g.taken.length - g.st.wf := by
+  first | exact WindVerif.Buffers.output_in_order_until_flush .. | (apply WindVerif.Buffers.output_in_order_until_flush <;> assumption)
+
+/-- Recovery: when the stream works from some point on, one `flush` does not raise, empties the buffer, and the output then
+contains the value of every serial taken exactly once (`outS`: the serials in output order; what had been written stays in
+front); without an earlier `flush` the output is in ascending serial order. -/
+theorem recovery (ok : Nat → Bool) (f : Nat → Nat) (evs : List EvF) (hf : Fresh ok f GSt.init evs)
+    (hok : ∀ n, (runG ok f GSt.init evs).st.att ≤ n → ok n = true) :
+    let g := runG ok f GSt.init evs
+    let r := g.st.flushF ok
+    r.2 = .ok () ∧ r.1.buffer = [] ∧
+    ∃ outS : List Nat, r.1.out = outS.map f ∧ outS.Perm g.taken ∧ g.taken.Nodup ∧
+      (∃ rest, r.1.out = g.st.out ++ rest) ∧
+      (noFlush evs → outS.Pairwise (· < ·)) := by
+  first | exact WindVerif.Buffers.recovery .. | (apply WindVerif.Buffers.recovery <;> assumption)
+
+/-- With a stream that never fails the new functions are the old `print` / `flush` / `clear` (so the theorems about the old
+model are the special case). -/
+theorem agrees_when_ok (s : PBufF) (sn x : Nat) :
+    (s.printF (fun _ => true) sn x).1.toPBuf = (s.toPBuf.print sn x).1 ∧
+    (s.printF (fun _ => true) sn x).2 = .ok (s.toPBuf.print sn x).2 ∧
+    (s.flushF (fun _ => true)).1.toPBuf = s.toPBuf.flush ∧
+    (s.flushF (fun _ => true)).2 = .ok () ∧
+    s.clear.toPBuf = s.toPBuf.clear := by
+  first | exact WindVerif.Buffers.agrees_when_ok .. | (apply WindVerif.Buffers.agrees_when_ok <;> assumption)
+
+/-- … and the histories of `printbuffer_in_order` are the histories of the new model with that stream -/
+theorem histories_agree_when_ok (f : Nat → Nat) (sns : List Nat) (g : GSt) :
+    (runG (fun _ => true) f g (sns.map .print)).st.toPBuf = runP f g.st.toPBuf sns ∧
+    (runG (fun _ => true) f g (sns.map .print)).taken = g.taken ++ sns := by
+  first | exact WindVerif.Buffers.runG_allOk .. | (apply WindVerif.Buffers.runG_allOk <;> assumption)
+
+/-- The ALTERNATIVE statement order (`printF'`: delete and count first, write afterwards — what a refactoring with `pop` would
+produce) loses a value: serial 1 is stored, then serial 0 arrives; its own write (attempt 0) succeeds, the write of the stored
+value (attempt 1) fails.  The value 101 of serial 1 is then neither in the output nor held, and `waiting_for` has passed it;
+the real order (`printF`, last line) keeps it. -/
+theorem delete_before_write_loses :
+    let ok : Nat → Bool := fun n => n != 1
+    let s1 := (PBufF.empty.printF' ok 1 101).1
+    let r := s1.printF' ok 0 100
+    let r0 := ((PBufF.empty.printF ok 1 101).1).printF ok 0 100
+    s1.buffer = [(1, 101)] ∧
+    r.2.toOption = none ∧ r.1.out = [100] ∧ r.1.buffer = [] ∧ r.1.wf = 2 ∧
+    101 ∉ r.1.out ∧ 101 ∉ r.1.buffer.map (·.2) ∧
+    r0.2.toOption = none ∧ r0.1.out = [100] ∧ r0.1.buffer = [(1, 101)] ∧ r0.1.wf = 1 := by
+  first | exact WindVerif.Buffers.delete_before_write_loses .. | (apply WindVerif.Buffers.delete_before_write_loses <;> assumption)
+
+/-- non-vacuity: the stream refuses its write number 1 — `print 0` writes its own value, fails at the stored value of serial 1
+and raises; serial 2 is stored behind it; the hypotheses of the theorems hold for this history, and one `flush` recovers -/
+example : (printed [EvF.print 1, .print 0, .print 2, .flush]).Nodup := by decide
+example : Fresh (fun n => n != 1) (· + 100) GSt.init [.print 1, .print 0, .print 2] ∧
+    noFlush [EvF.print 1, .print 0, .print 2] := by decide
+example : let g := runG (fun n => n != 1) (· + 100) GSt.init [.print 1, .print 0, .print 2]
+    g.st.out = [100] ∧ g.st.wf = 1 ∧ g.st.buffer = [(2, 102), (1, 101)] ∧ g.st.att = 2 ∧ g.taken = [1, 0, 2] ∧
+    g.refused = [] ∧ (g.st.printF (fun n => n != 1) 3 103).2.toOption = some false := by decide
+example : ∀ n, (runG (fun n => n != 1) (· + 100) GSt.init [.print 1, .print 0, .print 2]).st.att ≤ n →
+    (fun n => n != 1) n = true := by
+  intro n hn
+  have e : (runG (fun n => n != 1) (· + 100) GSt.init [.print 1, .print 0, .print 2]).st.att = 2 := by decide
+  rw [e] at hn
+  simp only [bne_iff_ne, ne_eq]; omega
+example : (PBufF.flushF (fun n => n != 1) ⟨⟨[(1, 101)], 1, [100]⟩, 2⟩).1.out = [100, 101] := by
+  simp [PBufF.flushF, PBufF.flushLoop, PBufF.write]
+/-- non-vacuity of `Fresh` beyond unique serials: the very first write is refused, the caller feeds serial 0 again -/
+example : Fresh (fun n => n != 0) (· + 100) GSt.init [.print 1, .print 0, .print 0, .print 2] ∧
+    ¬ (printed [EvF.print 1, .print 0, .print 0, .print 2]).Nodup ∧
+    refuses (fun n => n != 0) (runG (fun n => n != 0) (· + 100) GSt.init [.print 1]).st 0 = true ∧
+    (let g := runG (fun n => n != 0) (· + 100) GSt.init [.print 1, .print 0, .print 0, .print 2]
+     g.st.out = [100, 101, 102] ∧ g.taken = [1, 0, 2] ∧ g.refused = [0] ∧ g.st.buffer = []) := by decide
 
 end WindVerif.C15
